@@ -144,6 +144,8 @@ structure KsRow where
   active : Bool
   ppk : UInt64
   counter : Nat := 0
+  /-- the stored keyset carries the public keys (`AddMint` stores inactive keysets without them) -/
+  keys : Bool := true
   deriving DecidableEq, Repr, Inhabited
 
 structure WMintQ where
@@ -343,6 +345,8 @@ def swap (m : MintView) (ins : List WProof) (outs : List Out) : MintView × CRes
 
 /-- `Mint.RequestMintQuote`. -/
 def mintQuote (m : MintView) (id : Nat) (amount : UInt64) : MintView × CRes MMintQ :=
+  -- an amount with the high bit set cannot be stored (database/sql): the mint answers with its generic error
+  if amount ≥ 0x8000000000000000 then (m, .error (.mint 10000)) else
   let q : MMintQ := { id := id, amount := amount }
   ({ m with mintQ := m.mintQ ++ [q] }, .ok q)
 
@@ -378,6 +382,7 @@ def feeReserve (m : MintView) (amount : UInt64) : UInt64 := if m.feePct then (am
 
 /-- `Mint.RequestMeltQuote` (invoices of this mint's own mint quotes — internal settlement — are outside the model). -/
 def meltQuote (m : MintView) (id : Nat) (inv : InvRef) : MintView × CRes MMeltQ :=
+  if inv.amount == 0 then (m, .error (.mint 20000)) else   -- "invoice has no amount"
   if m.meltQ.any (·.inv == inv) then (m, .error (.mint 20009)) else
   let q : MMeltQ := { id := id, inv := inv, amount := inv.amount, feeReserve := m.feeReserve inv.amount }
   ({ m with meltQ := m.meltQ ++ [q] }, .ok q)
@@ -940,7 +945,7 @@ def getMintActiveKeyset (mi : Nat) : PM KsRow := do
 /-- `GetMintInactiveKeysets` -/
 def getMintInactiveKeysets (mi : Nat) : PM (List KsRow) := do
   let kss ← cTry (.cKeysets mi)
-  pure ((kss.filter (fun k => !k.active)).map (fun k => { mint := mi, id := k.id, active := false, ppk := k.ppk }))
+  pure ((kss.filter (fun k => !k.active)).map (fun k => { mint := mi, id := k.id, active := false, ppk := k.ppk, keys := false }))
 
 /-- `(w *Wallet).getActiveKeyset(mintURL)` (keyset.go). -/
 def getActiveKeyset (mi : Nat) : PM KsRow := do
@@ -993,7 +998,14 @@ def addMint (mi : Nat) : PM MemMint := do
 
 /-- `loadWalletMints` + the keyset part of `LoadWallet`. -/
 def loadWallet (defaultMint : Nat) : PM Unit := do
-  let rows ← eff .getKeysets
+  let rows0 ← eff .getKeysets
+  -- keysets stored without public keys are completed (`GetKeysetKeys` + `SaveKeyset`)
+  let rows ← forCollectM (default : KsRow) rows0 (fun r =>
+    if r.keys then pure [r]
+    else do
+      cTry (.cKeysetById r.mint r.id)
+      eff (.saveKeyset { r with keys := true })
+      pure [{ r with keys := true }])
   let mintIds := MintView.dedupNat (rows.map (·.mint))
   let mints : List MemMint := mintIds.map (fun mi =>
     let mine := rows.filter (·.mint == mi)
